@@ -36,6 +36,8 @@ CHECKS["C12"] = dict(
 
 BASE_TRUST = "Trusted: go/ssa construction, the gosym interpreter (validated on every run by replaying sampled paths natively and comparing observed values), z3 5.1.0 (thorough tier: final assertion verdicts re-discharged on z3 4.8.12 and cvc5); pkg/errors and fmt are opaque-error models."
 
+FS_TRUST = "The kernel is replaced by the model file system of /verif/models/m (root actor, umask 0, no EACCES/ENOSPC/concurrent modification; Lchown clears setuid/setgid as Linux does); claims hold for fsutil's control logic given that model, and every sampled path and every counterexample is re-run against the real kernel natively. Goroutines run under one cooperative schedule (lowest-numbered runnable goroutine, first ready select case): results are claimed for that schedule only. "
+
 CHECKS["C03"] = dict(
     level_text="Within the bounds the solver shows that every path the real validators accept is lexically strictly inside the destination (Join(dest,p)=dest/p, component-wise well formed) and that an accepted hard link always names an earlier accepted regular entry; hostile packet scripts against a destination with outward symlinks are decided on the model file system where registered.",
     level_note="Bounds: paths <=3 (quick) / <=5 (thorough) symbolic bytes; link scripts of 2 (quick) / 3 (thorough) entries with names <=2 bytes. " + BASE_TRUST,
@@ -132,7 +134,6 @@ CHECKS["C20"] = dict(
         ],
 )
 
-FS_TRUST = "The kernel is replaced by the model file system of /verif/models/m (root actor, umask 0, no EACCES/ENOSPC/concurrent modification; Lchown clears setuid/setgid as Linux does); claims hold for fsutil's control logic given that model, and every sampled path and every counterexample is re-run against the real kernel natively. Goroutines run under one cooperative schedule (lowest-numbered runnable goroutine, first ready select case): results are claimed for that schedule only. "
 
 CHECKS["C06"] = dict(
     level_text="The real Send (walk, queue, four file workers, request loop) is executed symbolically against an independent reference receiver written from the protocol comment, for every source view, request script and read fragmentation inside the bounds; the solver decides every branch, so STAT order/content, DATA framing per id, rejection of invalid ids, FIN echo and progress monotonicity are shown for all those inputs under the canonical schedule.",
